@@ -569,6 +569,10 @@ func (w *dw) snapshot() {
 	for i := range w.M.Cells {
 		w.lastVer = append(w.lastVer, w.M.Cells[i].Ver)
 		w.lastLocked = append(w.lastLocked, w.M.Cells[i].Locked)
+		if !w.M.Cells[i].Locked {
+			w.M.Cells[i].Dirtied = false
+			w.M.Cells[i].WideDirt = false
+		}
 	}
 }
 
@@ -596,19 +600,16 @@ func (w *dw) checkStamps() {
 	for y := 0; y < m.H; y++ {
 		for x := 0; x < m.W; x++ {
 			i := y*m.W + x
-			changed := !sameGlyph(now[i], w.lastShow[i]) || (w.lastLocked[i] && !m.Cells[i].Locked)
-			// re-storing different content that renders the same is also a change of the cell's content
-			if m.Cells[i].Ver != w.lastVer[i] {
-				c := m.Cells[i]
-				_ = c
-				if !sameGlyph(now[i], w.lastShow[i]) {
-					changed = true
-				}
-			}
+			// changed: the stored rune, combining runes or style were
+			// modified since the previous Show (a transient change counts:
+			// the statement speaks of cells "whose rune, combining runes or
+			// style changed"), the default style resolution changed the
+			// appearance, or the cell was unlocked.
+			changed := m.Cells[i].Dirtied || !sameGlyph(now[i], w.lastShow[i]) || (w.lastLocked[i] && !m.Cells[i].Locked)
 			if changed {
 				mark(x, y)
 				// columns covered or uncovered by a changed wide rune
-				if now[i].Width == 2 || w.lastShow[i].Width == 2 || now[i].Hidden || w.lastShow[i].Hidden {
+				if now[i].Width == 2 || w.lastShow[i].Width == 2 || now[i].Hidden || w.lastShow[i].Hidden || m.Cells[i].WideDirt {
 					mark(x-1, y)
 					mark(x+1, y)
 				}
@@ -631,6 +632,9 @@ func (w *dw) checkStamps() {
 			c := w.T.At(x, y)
 			if c.Stamp != w.block {
 				continue
+			}
+			if c.Width == 0 {
+				continue // second column of a wide glyph: judged at its first column
 			}
 			if m.Cells[i].Locked && w.lastLocked[i] {
 				w.fail("C13/locked-write", "Show #%d printed into locked cell (%d,%d): %q", w.block, x, y, c.Text())
